@@ -95,6 +95,7 @@ typedef struct SimFile {       /* an open file description */
     FsNode *node;              /* bound socket node / regular file */
     /* regular file */
     size_t pos; int oflags;
+    bool nonblock;             /* O_NONBLOCK on this open file description */
     int id;
 } SimFile;
 
